@@ -57,6 +57,8 @@ Verdict(s) ==
     [] OTHER -> "either"
 
 \* C16: what a run of the plugin may do.  o = [diag, out, compiles, same, timeout, died]
+\* same: three runs on the same request give the same result, and what is emitted for a file is
+\* the same when the file is generated together with another file (either order) in one request
 Acceptable(v, o) ==
   /\ ~o.timeout /\ ~o.died /\ o.same
   /\ CASE v = "accept" -> ~o.diag /\ o.out /\ o.compiles
